@@ -54,6 +54,11 @@ class _FIXRepeatingGroupContainer:
         else:
             self.groups.insert(index, group)
 
+    def __eq__(self, other):
+        if isinstance(other, _FIXRepeatingGroupContainer):
+            return self.groups == other.groups
+        return NotImplemented
+
     def __str__(self):
         return str(len(self.groups)) + "=>" + str(self.groups)
 
@@ -364,9 +369,10 @@ class FIXContainer:
         Raises:
             FIXMessageError: group comparison not supported
         """
-        # if our string representation looks the same, the objects are equivalent
         if isinstance(other, FIXContainer):
-            return self.__str__() == other.__str__()
+            # same tags with the same values / group items in the same order (the string
+            #   representations of different contents can coincide: 1='a|2=b' vs 1='a', 2='b')
+            return list(self.tags.items()) == list(other.tags.items())
         elif isinstance(other, dict):
             ignore_tags = {
                 FTag.BeginString,
